@@ -6,6 +6,7 @@ import (
 	"crypto/sha512"
 	"fmt"
 	"math/big"
+	"strings"
 
 	"github.com/cloudflare/pat-go/ed25519"
 
@@ -18,9 +19,9 @@ func init() {
 		ID:    "C15",
 		Level: "exploration",
 		Rule: "seeded (seed, 32-byte blind incl. all-zero and all-0xff, context in {nil, empty, 1 byte, 200 bytes}, message) and all pairs from a pool of 6 blinds. Oracle: blinded key bytes == encode(k*A) with k = int_le(SHA-512(blind||0x00||ctx)[0:32]) mod L computed with crypto/sha512 and the math/big Edwards model; " +
-			"BlindKeySignWithContext is deterministic, its signature verifies under the blinded key with crypto/ed25519.Verify and with this package's Verify and not under the original key; Unblind(Blind(A)) == A == Blind(Unblind(A)); two blindings commute; another blind or another context gives another key. " +
+			"BlindKeySignWithContext is deterministic, its signature verifies under the blinded key with crypto/ed25519.Verify and with this package's Verify and not under the original key; Unblind(Blind(A)) == A == Blind(Unblind(A)); two blindings commute; another blind or another context gives another key. Histories of 14 consecutive calls over related inputs (two keys, one-bit neighbours, repeats, nil/empty context) with key, blind and context in buffers refilled in place, each compared with the stateless reference. " +
 			"distinct_nontrivial = distinct (blind class, context length, message length) keys",
-		Floors:      []string{"blinded_key_equals_reference", "signature_verifies_std_and_fork", "signature_deterministic", "unblind_inverts", "commutes", "blind_separation", "context_separation", "signature_fails_under_original", "arguments_share_one_buffer"},
+		Floors:      []string{"blinded_key_equals_reference", "signature_verifies_std_and_fork", "signature_deterministic", "unblind_inverts", "commutes", "blind_separation", "context_separation", "signature_fails_under_original", "arguments_share_one_buffer", "history_calls_agree_with_reference"},
 		Assumptions: []string{"honest public keys lie in the prime-order subgroup", "crypto/ed25519 is the standard verifier"},
 		Run:         runC15,
 	})
@@ -36,7 +37,97 @@ func c15Scalar(blind, ctx []byte) *big.Int {
 	return k.Mod(k, ref.EdL)
 }
 
+// c15History: consecutive blinding calls over related inputs - two keys, a key and its one-bit neighbour's valid key,
+// (blind, context) pairs with the boundary between them shifted by one byte, exact repeats - with the key, blind and
+// context handed over in buffers the caller refills in place. Every result is compared with the stateless reference.
+func c15History(c *core.Ctx, r *core.Rand, tag string) {
+	type inp struct {
+		name             string
+		seed, blind, ctx []byte
+	}
+	seeds := [][]byte{r.Bytes(32), r.Bytes(32)}
+	b := r.Bytes(32)
+	cx := []byte("ctx-for-history")
+	pool := []inp{
+		{"key0/blind/ctx", seeds[0], b, cx}, {"key1/blind/ctx", seeds[1], b, cx}, {"key0/blind/ctx-again", seeds[0], b, cx},
+		{"key0/blind-bit-flipped/ctx", seeds[0], flipBit(b, 77), cx}, {"key0/blind/ctx+0", seeds[0], b, append(clone(cx), 0)},
+		{"key0/blind/nil-ctx", seeds[0], b, nil}, {"key1/blind/empty-ctx", seeds[1], b, []byte{}},
+		{"key0/blind/ctx-bit-flipped", seeds[0], b, flipBit(cx, 5)}, {"key1/other-blind/ctx", seeds[1], r.Bytes(32), cx},
+	}
+	pubBuf, privBuf, blindBuf, ctxBuf := make([]byte, 32), make([]byte, 64), make([]byte, 32), make([]byte, 0, 64)
+	var trace []string
+	onlyBlind := len(tag)%2 == 1 || strings.HasSuffix(tag, "1") || strings.HasSuffix(tag, "5")
+	for step := 0; step < 14; step++ {
+		p := pool[r.IntN(len(pool))]
+		if step < 4 {
+			p = pool[step]
+		}
+		trace = append(trace, p.name)
+		spriv := stded.NewKeyFromSeed(p.seed)
+		pub := []byte(spriv[32:])
+		A, _ := ref.EdDecode(pub)
+		k := c15Scalar(p.blind, p.ctx)
+		want := ref.EdEncode(ref.EdMul(k, A))
+		copy(pubBuf, pub)
+		copy(privBuf, spriv)
+		copy(blindBuf, p.blind)
+		var ctx []byte
+		if p.ctx != nil {
+			ctxBuf = append(ctxBuf[:0], p.ctx...)
+			ctx = ctxBuf
+		}
+		msg := r.Bytes(r.IntN(30))
+		c.Eval(1)
+		d := map[string]any{"calls_in_order": clone2(trace), "seed": core.Hex(p.seed), "blind": core.Hex(p.blind), "context": core.Hex(p.ctx), "tag": tag}
+		bad := func(cls, what string) {
+			c.Violation("history:"+cls, "Ed25519 key blinding (consecutive related calls, argument buffers refilled in place): "+what, d)
+		}
+		stop := true
+		pan, pv, where := core.Guard(func() {
+			bp, err := ed25519.BlindPublicKeyWithContext(ed25519.PublicKey(pubBuf), blindBuf, ctx)
+			if err != nil || !bytes.Equal(bp, want) {
+				bad("blinded-key-differs", "the blinded public key is not the public key multiplied by SHA-512(blind||0x00||ctx)[0:32] mod L after the calls made before it")
+				return
+			}
+			if onlyBlind {
+				// nothing else between two blinding calls that read the key from the same buffer
+				stop = !bytes.Equal(pubBuf, pub)
+				return
+			}
+			up, err := ed25519.UnblindPublicKeyWithContext(bp, blindBuf, ctx)
+			if err != nil || !bytes.Equal(up, pub) {
+				bad("unblind-does-not-invert", "Unblind(Blind(A)) != A after the calls made before it")
+				return
+			}
+			sig := ed25519.BlindKeySignWithContext(ed25519.PrivateKey(privBuf), msg, blindBuf, ctx)
+			if !stded.Verify(stded.PublicKey(want), msg, sig) || !ed25519.Verify(ed25519.PublicKey(want), msg, sig) {
+				bad("signature-does-not-verify", "a blinded-key signature does not verify under the reference's blinded key after the calls made before it")
+				return
+			}
+			if !bytes.Equal(pubBuf, pub) || !bytes.Equal(blindBuf, p.blind) || !bytes.Equal(privBuf, spriv) || (p.ctx != nil && !bytes.Equal(ctxBuf, p.ctx)) {
+				bad("argument-written", "an argument buffer was modified")
+				return
+			}
+			stop = false
+		})
+		if pan {
+			bad("panic:"+where, pv)
+			return
+		}
+		if stop {
+			return
+		}
+		c.Class("history_calls_agree_with_reference")
+	}
+	c.Distinctf("history:%s", tag)
+}
+
 func runC15(c *core.Ctx) {
+	for h := 0; h < c.Pick(24, 1500); h++ {
+		if c.Next() {
+			c15History(c, c.CaseRng(), fmt.Sprint(h))
+		}
+	}
 	n := c.Pick(600, 60000)
 	pool := make([][]byte, 6)
 	pr := c.Rng("pool")
